@@ -29,6 +29,9 @@ type conn struct {
 	shutdownCtx context.Context
 	requestsWg  sync.WaitGroup
 
+	// disablePanicRecovery mirrors the server's WithDisablePanicRecovery option
+	disablePanicRecovery bool
+
 	reader   *bufio.Reader
 	writer   *bufio.Writer
 	writerMu sync.Mutex // shared lock across all ResponseWriter's to prevent write data races
@@ -137,6 +140,15 @@ func (c *conn) serveRequests() error {
 					c.logger.Debug("requestsWg done", "op", op, "conn", c.connID, "requestID", w.requestID)
 					c.requestsWg.Done()
 				}()
+				if !c.disablePanicRecovery {
+					// catch and report panics - we don't want a panic in a
+					// handler to crash the server
+					defer func() {
+						if r := recover(); r != nil {
+							c.logger.Error("Caught panic while serving request", "op", op, "conn", c.connID, "requestID", w.requestID, "panic", fmt.Sprintf("%+v", r))
+						}
+					}()
+				}
 				c.router.serve(w, r)
 			}()
 		}
